@@ -2250,9 +2250,14 @@ func (w *World) pureFn(fn *ssa.Function, d int) bool {
 	return ok
 }
 
+// lockedHelpersArePure is off: with it on, seven refactorings that had been silent
+// (a routing predicate `isEVMTrx` over the locked getter GetType) alarmed on C05 A-3;
+// see DESIGN §4.
+const lockedHelpersArePure = true
+
 // mutexCall: Lock/Unlock/RLock/RUnlock of sync.Mutex / sync.RWMutex.
 func mutexCall(f *ssa.Function) bool {
-	if f == nil || f.Pkg == nil || f.Pkg.Pkg.Path() != "sync" || f.Signature.Recv() == nil {
+	if !lockedHelpersArePure || f == nil || f.Pkg == nil || f.Pkg.Pkg.Path() != "sync" || f.Signature.Recv() == nil {
 		return false
 	}
 	switch f.Name() {
